@@ -7,7 +7,8 @@ import os
 import re
 
 from .. import hir as H
-from ..armtable import Compound, LexEvaluator, Splitter, splitter_patterns
+from ..armtable import Compound, Splitter
+from ..lexvm import LexVM as LexEvaluator
 from ..facts import LANGS, TRAIT, interp_method
 from ..peval import Builder, Marker, Res, Unanalysable
 
